@@ -55,6 +55,18 @@ OBJECTS = {
                                      'nbdime.prettyprint.PrettyPrintConfig.ADD', 'nbdime.prettyprint.PrettyPrintConfig.INFO', 'nbdime.prettyprint.PrettyPrintConfig.RESET'}, 'history-read': {}},
 }
 
+W = 'nbdime.webapp.nbdimeserver.'
+OBJECTS['nbdime.webapp.<application settings>'] = {
+    'why': "tornado's application settings and the application object, shared by all requests of a server: written at start-up (init_app), by the "
+           "shutdown request (exit_code, read only after the loop has ended) and once by the merge handler, which keeps the constant argument namespace "
+           "of the web merge (build_merge_parser().parse_args(['', '', '']) with strategy mergetool -- no data of any request). No handler may keep "
+           "anything else there: an answer is a function of the request and of the files as they are on disk",
+    'write': {W + 'init_app', W + 'ApiCloseHandler.post', W + 'ApiMergeHandler.post'},
+    'reads': 'free', 'subscript-read': set(), 'history-read': {}}
+OBJECTS['nbdime.webapp.<server start-up parameters>'] = {
+    'why': 'the keyword parameters the server was started with (handlers get them through initialize): never written after start-up',
+    'write': set(), 'reads': 'free', 'subscript-read': set(), 'history-read': {}}
+
 # constant module-level lists/dicts (never written; any write site fails)
 CONSTANT = {
     'nbdime.__all__', 'nbdime.__main__.COMMANDS', 'nbdime._version._specifier_', 'nbdime.args.filename_help',
